@@ -61,3 +61,26 @@ func vH_C18_udp_parse() {
 		vUDPParseCase(n)
 	}
 }
+
+// ---- C12 (known finding C12-c2): relayed UDP datagrams and the egress policy ----
+//
+// The per-datagram relay step of a UDP association: parseUDPAssociateDatagram
+// turns the SOCKS5 UDP header of a datagram into the address the server then
+// sends it to (RunUDPAssociateLoop / runUDPAssociateDatagramLoop call nothing
+// else in between).  Neither function has a user or policy parameter, so for a
+// user WITHOUT loopback / private access a datagram addressed to a loopback or
+// private IPv4 address is relayed all the same.
+func vH_C12_udp_datagram_policy() {
+	pkt := vNondetBytes("pkt", 12) // RSV RSV FRAG ATYP=1 a.b.c.d port payload(2)
+	vAssume(pkt[0] == 0 && pkt[1] == 0 && pkt[2] == 0 && pkt[3] == 1)
+	dst, payload, err := parseUDPAssociateDatagram(pkt, nil)
+	if err != nil {
+		return
+	}
+	vAssert(len(payload) == 2 && dst != nil, "datagram accepted for relay")
+	ip4 := dst.IP.To4()
+	vAssert(ip4 != nil, "IPv4 destination")
+	a := []byte(ip4)
+	local := vIs4Loopback(a) || vIs4Unspec(a) || vIs4Private(a)
+	vAssert(!local, "a datagram of a user without loopback / private access is not relayed to a loopback, unspecified or private address")
+}
